@@ -397,6 +397,7 @@ type semCfg struct {
 	Name      string
 	Opts      ugo.CompilerOptions
 	RoundTrip bool // encode + decode the bytecode before running
+	Again     int  // additional encode + decode rounds
 	Twice     bool // run twice on the same VM, observe the second run
 }
 
@@ -405,10 +406,14 @@ func semConfigs(names []string) []semCfg {
 	for _, full := range names {
 		n := full
 		rt, twice := false, false
+		again := 0
 		for strings.Contains(n, "+") {
 			i := strings.LastIndex(n, "+")
 			switch n[i+1:] {
 			case "rt":
+				if rt {
+					again++
+				}
 				rt = true
 			case "twice":
 				twice = true
@@ -427,7 +432,7 @@ func semConfigs(names []string) []semCfg {
 			out = append(out, semCfg{Name: n, Opts: ugo.CompilerOptions{OptimizerLimit: lim}})
 		}
 		for ; k < len(out); k++ {
-			out[k].Name, out[k].RoundTrip, out[k].Twice = full, rt, twice
+			out[k].Name, out[k].RoundTrip, out[k].Twice, out[k].Again = full, rt, twice, again
 		}
 	}
 	return out
@@ -475,7 +480,7 @@ func semRun(p semProg, cf semCfg, src string) (obs string, compileErr error, pan
 	if ref := builtinRefs(bc, p.Disabled); ref != "" {
 		return "BUILTINREF: " + ref, nil, nil
 	}
-	if cf.RoundTrip {
+	for rt := 0; cf.RoundTrip && rt < 1+cf.Again; rt++ {
 		var buf bytes.Buffer
 		if err := encoder.EncodeBytecodeTo(bc, &buf); err != nil {
 			return "ENCODE: " + err.Error(), nil, nil
